@@ -388,11 +388,17 @@ def export_sm_element(el):
                 r.update(k="unsupported", unsupported="ref form")
                 return r
         r["internal"] = "internal" in (el.info or {})
+        if any(a[0] == "activated" for a in r["args"]):
+            r["unsupported"] = "activation"
+        if r["name"] in ("FinishFlow", "StopFlow"):
+            r["unsupported"] = "explicit FinishFlow/StopFlow"
         bad = [a for a in r["args"] + r["margs"] if a[1]["k"] == "unsupported"]
         if bad:
             r["unsupported"] = "arg expr: " + bad[0][1]["v"]
     elif isinstance(el, ast.Label):
         r.update(k="label", label=el.name)
+        if el.name == "start_new_flow_instance":
+            r["unsupported"] = "start_new_flow_instance"
     elif isinstance(el, ast.Goto):
         r.update(k="goto", label=el.label, expr=classify_expr(el.expression))
     elif isinstance(el, ast.ForkHead):
@@ -416,9 +422,9 @@ def export_sm_element(el):
     elif isinstance(el, ast.EndScope):
         r.update(k="endscope", label=el.name)
     elif isinstance(el, ast.Priority):
-        r.update(k="priority", expr=classify_expr(el.priority_expr))
+        r.update(k="priority", expr=classify_expr(el.priority_expr), unsupported="priority")
     elif isinstance(el, ast.Global):
-        r.update(k="global", key=el.name.lstrip("$"))
+        r.update(k="global", key=el.name.lstrip("$"), unsupported="global")
     elif isinstance(el, (ast.Log, ast.Print)):
         r.update(k="skip")
     else:
